@@ -162,6 +162,25 @@ def r3(rr, repo):
             rr.ob('frames is None: no call of sender.send, send() reports success', not sent and isret and isconst and val is True, mqm,
                   sent[0].node if sent else mq_send, witness=f'{p.pc_text()} => {p.outcome_text()}', key='mq-none')
     rr.floor('paths of MQ.send with frames None', n, 1, mqm, mq_send)
+    # ... and ONLY that frame: whatever else process() returned - an empty dict included - goes to the sender when there is one
+    start2 = Path()
+    start2.facts[f'isnone({param})'] = False
+    start2.pc.append((f'isnone({param})', False))
+    start2.facts['isnone(self.sender)'] = False
+    start2.pc.append(('isnone(self.sender)', False))
+    ev2 = Evaluator(repo, mqm)
+    ps2 = ev2.run(mq_send.body, start2)
+    rr.paths += len(ps2)
+    m = 0
+    for p in ps2:
+        if p.outcome is not None and p.outcome[0] == 'raise':
+            continue
+        m += 1
+        sent = [e for e in p.events if e.kind == 'call' and e.term == 'self.sender.send']
+        empty = any(k_ in (f'truthy({param})',) and v is False for k_, v in p.pc)
+        rr.ob('a result that is not None is handed to the sender whatever it holds (an empty frame set is a frame set: it is published as an empty set)', bool(sent), mqm, mq_send,
+              witness=f'{p.pc_text()[-160:]} => {p.outcome_text()}' + ('  [the empty set is treated like None]' if empty and not sent else ''), key='mq-not-none-sent')
+    rr.floor('paths of MQ.send with a non-None result and a sender', m, 1, mqm, mq_send)
     tparam = q.func_params(za.S_send)[1]
     k = 0
     for p in za.paths('maybe'):
